@@ -52,6 +52,10 @@ def gen_scenario(seed, k):
             {"bin": "t_two", "pkg": "alpha", "name": "flaky", "ignored": False, "attempts": [fixed_attempt("fail", 40, "F"), fixed_attempt("pass", 50, "P"), fixed_attempt("pass", 60, "P")]},
             {"bin": "t_three", "pkg": "beta", "name": "passes", "ignored": False, "attempts": [fixed_attempt("pass", 70, "P")] * 3},
         ]
+        # output containing the two code points XML 1.0 excludes (U+FFFE, U+FFFF), C0 controls, an ANSI escape and invalid UTF-8
+        hostile_out = "before \ufffe middle \uffff \x01\x08\x0b \x1b[31mred\x1b[0m ]]> <&> end\n".encode() + b"\xff\xfe tail\n"
+        nonchar = {"kind": "fail", "acts": ["out:" + hx(hostile_out), "err:" + hx(hostile_out), "exit:1"], "out": None, "err": None, "expect": "F", "raw_out": hostile_out}
+        tests.append({"bin": "t_three", "pkg": "beta", "name": "hostile_output", "ignored": False, "attempts": [nonchar] * 3})
         for t in tests: sc.test(t["bin"], t["name"], {str(i + 1): a["acts"] for i, a in enumerate(t["attempts"])})
         sc.config = f'''[profile.default]
 retries = 2
@@ -341,7 +345,7 @@ def mon_output(sc, r):
             if not m:
                 out.append(viol(sc, r, "capture", f"test {t['name']!r}: unexpected capture record {cap}")); continue
             for (stream, ln, hs, spec) in (("stdout", int(m.group(1)), m.group(2), a["out"]), ("stderr", int(m.group(3)), m.group(4), a["err"])):
-                data = xxh64.pattern(spec[0], spec[1], spec[2]) if spec else b""
+                data = a["raw_out"] if a.get("raw_out") is not None else (xxh64.pattern(spec[0], spec[1], spec[2]) if spec else b"")
                 if ln != len(data) or int(hs, 16) != xxh64.xxh64(data):
                     out.append(viol(sc, r, "capture", f"test {t['name']!r} attempt {f[0]}: captured {stream} is {ln} bytes (xxh64 {hs}), the process wrote {len(data)} bytes (xxh64 {xxh64.xxh64(data):016x})"))
     return out
